@@ -31,7 +31,9 @@ TECH = {
 LEVEL_TEXT = ("runtime monitoring: the property held on every execution explored (count, classes and what the monitors observed "
               "are in the evidence file); no guarantee outside the generated input classes and bounds")
 NOTE = ("trusted base: vmon/ref.py exact-rational reference model (self-tested by vmon.selftest), CPython fractions, the "
-        "class-attribute monitor wrappers; float verdicts only on the well-conditioned class")
+        "class-attribute monitor wrappers; float verdicts only on the well-conditioned class. Always-on monitors under "
+        "every check: M1 state (atomicity, operands, invariants), M2 logical step budget, M3 reach counters, M4 numpy FP "
+        "events, M6 fresh-interpreter history independence, M7 alias probe + bystander curves + scribbled inputs")
 
 
 def main():
